@@ -221,7 +221,9 @@ func (h Engine) applyAuthMiddleware(echoServer core.EchoRouter, path string, con
 	address := h.server.getAddressForPath(path)
 
 	skipper := func(c echo.Context) bool {
-		return !matchesPath(c.Request().RequestURI, path)
+		// Decide on the parsed URL path, which is what the router dispatches on. RequestURI is the raw request-target,
+		// which for absolute-form targets (GET http://host/internal/... HTTP/1.1) does not start with the path.
+		return !matchesPath(c.Request().URL.Path, path)
 	}
 
 	// Auth
